@@ -23,6 +23,16 @@ def build_pool(seed, n=60):
     # users that never define them: must keep failing whatever ran before
     for f in FAILING:
         pool.append({'src': 'L0:\nK0 = 3\naddi x1, x1, K0\n%s\nj L0\n' % f, 'compress': rng.random() < 0.5, 'dicts': not f.endswith('SHARED_L') and rng.random() < 0.7})
+    # one name, a constant in one program and a label in another; callers that pass no tables at all
+    for name in ('TABLE', 'fee'):
+        pool.append({'src': '%s = 64\nnop\naddi x1, x0, %s\ndb %s + 1\nalign 2\n' % (name, name, name), 'compress': False, 'dicts': False})
+        pool.append({'src': 'nop\nnop\n%s:\ndw %s\nj %s\nli t1, %s\nlw t2, %s(zero)\n' % (name, name, name, name, name), 'compress': name == 'fee', 'dicts': False})
+    # names made of hex digits / x only, the same expression texts with other values; a user of such a name that never defines it
+    for k, (va, vb) in enumerate([(10, 1), (20, 3), (0xdec, 7)]):
+        pool.append({'src': 'fee = %d\na = %d\nx = a + 1\ncafe = fee + 1\ndec = 4\naddi x1, x0, fee + 1\naddi x2, x0, a + x\ndb cafe & 0xff\ndb dec\ndh 0xbad + a\n' % (va, vb),
+                     'compress': bool(k & 1), 'dicts': k != 1})
+    pool.append({'src': 'addi x1, x0, dec + 1\n', 'compress': False, 'dicts': False})
+    pool.append({'src': 'ADC = 3\nfee:\naddi x1, x0, ADC + 1\nj fee\n', 'compress': True, 'dicts': True})
     # same label / constant names, different values
     while len(pool) < n - 6:
         items = randprog.gen(rng, dict(n=(3, 25), labels=(1, 4)))
